@@ -6,8 +6,8 @@ import ast
 from ..cfg import _catches_all
 from ..core import Ctx
 from ..lengths import INF, LengthAnalysis, protected
-from ..match import arg, call_name, calls, facts_at, local_defs, mentions, names_in, single_def
-from ..model import AnalysisError, FuncInfo, chain, enclosing_stmt, norm, parent, strip_cast, walk_no_nested
+from ..match import arg, call_name, calls, fact_of, facts_at, is_param, local_defs, mentions, names_in, resolve, same_resolved, single_def
+from ..model import NOCONST as NOCONST_, AnalysisError, FuncInfo, chain, const_value, enclosing_stmt, norm, parent, strip_cast, walk_no_nested
 
 LEVEL = "other"
 EXPLANATION = (
@@ -16,7 +16,9 @@ EXPLANATION = (
     "Exception); in it every constant-index read of a bytes value and every fixed-format unpack_from must be covered "
     "by a dominating, still-valid length fact (facts are carried into callees). Plus: decode_map dispatch dominated "
     "by the 22-byte prefix comparison and contained in try/except Exception; every wire-supplied length in a Packer "
-    "is honoured against the buffer; consume_all remainder check; snapshot loader exception containment."
+    "is honoured against the buffer; consume_all remainder check; snapshot loader exception containment. In the same "
+    "region every removal by key from a table (del t[k], t.pop(k) without default, self.t.remove(x)) must be dominated by a "
+    "still-valid membership test or lie under a handler for the exception it raises."
 )
 
 SER = "ipv8/messaging/serialization.py"
@@ -45,6 +47,201 @@ def _is_abstract(fi: FuncInfo) -> bool:
     return any("abstractmethod" in d for d in fi.decorator_names())
 
 
+class _Lengths(LengthAnalysis):
+    """
+    LengthAnalysis that also understands equivalent spellings of a length guard:
+    `n = len(x)` hoisted into a local (valid while x is not rebound between the hoist and the read), `len(x) == 0` /
+    `len(x) != 0` / `not len(x)` / `x != b""` for the emptiness test, and a guard on a local alias `m = x.attr`.
+    Every accepted form implies the same lower bound on len(x) at the read as the plain `len(x) < n` spelling.
+    """
+
+    _site: ast.AST | None = None
+
+    def min_len(self, e: ast.AST, site: ast.AST):
+        prev, self._site = self._site, site
+        try:
+            best, used = super().min_len(e, site)
+            e2 = strip_cast(e)
+            if isinstance(e2, ast.Name) and not is_param(self.fi, e2.id):
+                d = single_def(self.fi, e2.id)
+                if d is not None and d[1] is None and isinstance(strip_cast(d[0]), ast.Attribute):
+                    key = chain(d[0])
+                    if key is not None and self._unchanged_since(d[0], key):
+                        v, u = self.min_len(d[0], site)
+                        if v > best:
+                            best, used = v, u
+            return best, used
+        finally:
+            self._site = prev
+
+    def _unchanged_since(self, defexpr: ast.AST, key: str) -> bool:
+        """No statement that may change `key` lies on a path from the evaluation of defexpr to the current site."""
+        if self._site is None:
+            return False
+        dn = self.cfg.nodes_for(defexpr)
+        sn = self.cfg.nodes_for(self._site)
+        if not dn or not sn:
+            return False
+        kills = [k for k in self._kill_nodes(key) if k not in dn]
+        if not kills:
+            return True
+        after_def = self.cfg.reach([v for d in dn for v, _ in d.succ])
+        for k in kills:
+            if k in after_def:
+                r = self.cfg.reach([v for v, _ in k.succ], cut_nodes=dn)
+                if any(s in r for s in sn):
+                    return False
+        return True
+
+    def _len_of(self, e: ast.AST) -> str | None:
+        e = strip_cast(e)
+        r = super()._len_of(e)
+        if r is not None:
+            return r
+        if isinstance(e, ast.Name) and not is_param(self.fi, e.id):
+            d = single_def(self.fi, e.id)
+            if d is not None and d[1] is None:
+                k = super()._len_of(d[0])
+                if k is not None and self._unchanged_since(d[0], k):
+                    return k
+        return None
+
+    def _value_key(self, e: ast.AST) -> str | None:
+        e = strip_cast(e)
+        c = chain(e)
+        if isinstance(e, ast.Name) and not is_param(self.fi, e.id):
+            d = single_def(self.fi, e.id)
+            if d is not None and d[1] is None and isinstance(strip_cast(d[0]), (ast.Attribute, ast.Name)):
+                k = chain(d[0])
+                if k is not None and self._unchanged_since(d[0], k):
+                    return k
+        return c
+
+    def fact_min(self, f, key: str) -> int:
+        m = super().fact_min(f, key)
+        if f.op == "truthy" and f.pos:
+            if self._len_of(f.left) == key:
+                m = max(m, 1)                     # `if len(x):`
+            elif isinstance(strip_cast(f.left), ast.Name) and self._value_key(f.left) == key:
+                m = max(m, 1)                     # `m = x.attr` ... `if m:`
+        if f.op == "eq" and not f.pos:
+            for a, b in ((f.left, f.right), (f.right, f.left)):
+                if self._len_of(a) == key and self._const(b) == 0:
+                    m = max(m, 1)                 # len(x) != 0
+                if self._value_key(a) == key and isinstance(b, ast.Constant) and b.value == b"" \
+                        and self.typer.is_bytes(a):
+                    m = max(m, 1)                 # x != b""
+        return m
+
+
+_BUILTIN_METHOD_NAMES = frozenset(n for t in (dict, list, set, bytes, str, tuple, bytearray, int, object) for n in dir(t))
+
+
+def _unique_method(repo, call: ast.Call) -> list[FuncInfo]:
+    """`<untyped expr>.name(...)`: when exactly one class of the library defines a method `name` (and it is not the name
+    of a built-in container method) that method is the callee - e.g. self.network.get_verified_by_address."""
+    f = call.func
+    if not isinstance(f, ast.Attribute) or f.attr in _BUILTIN_METHOD_NAMES or f.attr.startswith("__"):
+        return []
+    cache = repo.__dict__.setdefault("_c03_methods_by_name", None)
+    if cache is None:
+        cache = {}
+        for c in repo.all_classes():
+            for n, m in c.methods.items():
+                cache.setdefault(n, []).append(m)
+        repo.__dict__["_c03_methods_by_name"] = cache
+    ms = cache.get(f.attr, [])
+    return list(ms) if len(ms) == 1 and not _is_abstract(ms[0]) else []
+
+
+def _handled(node: ast.AST, fi: FuncInfo, names: tuple[str, ...]) -> bool:
+    """node lies in the body of a try with a handler for one of the exception classes `names` (or a catch-all)."""
+    cur = node
+    p = parent(cur)
+    while p is not None and cur is not fi.node:
+        if isinstance(p, ast.Try) and any(cur is s_ for s_ in p.body):
+            for h in p.handlers:
+                if _catches_all(h):
+                    return True
+                t = h.type
+                if any(chain(e) in names for e in (t.elts if isinstance(t, ast.Tuple) else [t])):
+                    return True
+        if isinstance(p, (ast.With, ast.AsyncWith)) and any(cur is s_ for s_ in p.body):
+            for it in p.items:
+                ce = it.context_expr
+                if isinstance(ce, ast.Call) and chain(ce.func) in ("suppress", "contextlib.suppress") \
+                        and any(chain(a) in names + ("Exception", "BaseException") for a in ce.args):
+                    return True
+        cur, p = p, parent(p)
+    return False
+
+
+def _removal_sites(fi: FuncInfo):
+    """(node, container expr, key expr, exception names) for every removal by key that raises when the key is absent."""
+    for n in walk_no_nested(fi.node):
+        if isinstance(n, ast.Delete):
+            for t in n.targets:
+                if isinstance(t, ast.Subscript) and not isinstance(t.slice, ast.Slice) and const_value(t.slice) is NOCONST_:
+                    yield n, t.value, t.slice, ("KeyError", "LookupError")
+        elif isinstance(n, ast.Call) and isinstance(n.func, ast.Attribute) and not n.keywords and len(n.args) == 1 \
+                and not isinstance(n.args[0], ast.Starred):
+            if n.func.attr == "pop" and const_value(n.args[0]) is NOCONST_:
+                yield n, n.func.value, n.args[0], ("KeyError", "LookupError", "IndexError")
+            elif n.func.attr == "remove" and chain(n.func.value) is not None and chain(n.func.value).startswith("self."):
+                yield n, n.func.value, n.args[0], ("KeyError", "LookupError", "ValueError")
+
+
+def _same_container(fi: FuncInfo, a: ast.AST, b: ast.AST) -> bool:
+    if same_resolved(fi, a, b):
+        return True
+    # `k in d.keys()` / `k in d` are the same test
+    for x, y in ((a, b), (b, a)):
+        if isinstance(x, ast.Call) and isinstance(x.func, ast.Attribute) and x.func.attr == "keys" and not x.args \
+                and same_resolved(fi, x.func.value, y):
+            return True
+    return False
+
+
+def _check_removals(ctx: Ctx, fi: FuncInfo, cfg, via: str) -> None:
+    sites = list(_removal_sites(fi))
+    for c in calls(fi):
+        if isinstance(c.func, ast.Attribute) and c.func.attr == "pop" and len(c.args) == 2 and not protected(c, fi) \
+                and (chain(c.func.value) or "").startswith("self."):
+            ctx.instances = [i for i in ctx.instances if not (i["rule"].endswith("removal-guarded") and i["at"] == fi.where and i["line"] == c.lineno)]
+            ctx.instance("removal-guarded", fi.where, f"`{norm(c)[:60]}` has a default: an absent key does not raise", line=c.lineno)
+    for node, cont, key, excs in sites:
+        if protected(node, fi):
+            continue
+        ctx.instances = [i for i in ctx.instances if not (i["rule"].endswith("removal-guarded") and i["at"] == fi.where and i["line"] == node.lineno)]
+        ctx.findings = [f for f in ctx.findings if not (f.rule.endswith("removal-guarded") and f.at == fi.where and f.construct == norm(node))]
+        if _handled(node, fi, excs):
+            ctx.instance("removal-guarded", fi.where, f"`{norm(node)[:60]}` inside a handler for {excs[0]}", line=node.lineno)
+            continue
+        guard = None
+        for f in facts_at(cfg, node):
+            if f.op == "in" and f.pos and same_resolved(fi, f.left, key) and _same_container(fi, f.right, cont):
+                guard = f
+                break
+        ok = guard is not None
+        if ok:
+            # the membership fact must still hold: no other removal from the same table between the test and this one
+            gn = cfg.by_ast.get(id(guard.atom), [])
+            sn = cfg.nodes_for(node)
+            others = [k for n2, c2, _, _ in sites if n2 is not node and _same_container(fi, c2, cont) for k in cfg.nodes_for(n2)]
+            others += [k for c in calls(fi) if isinstance(c.func, ast.Attribute) and c.func.attr in ("clear", "popitem")
+                       and _same_container(fi, c.func.value, cont) for k in cfg.nodes_for(c)]
+            after_guard = cfg.reach([v for g in gn for v, _ in g.succ])
+            for k in others:
+                if k in after_guard and k not in sn and any(x in cfg.reach([v for v, _ in k.succ], cut_nodes=gn) for x in sn):
+                    ok = False
+        ctx.check(ok, "removal-guarded", fi, node,
+                  f"`{norm(node)[:60]}` is dominated by `{norm(key)} in {norm(cont)}` (reached via {via})",
+                  f"`{norm(node)[:80]}` on the unprotected receive path (reached via {via}) removes a key from `{norm(cont)}` without a "
+                  "dominating membership test, a default, or a handler: when the key is absent the KeyError propagates through "
+                  "on_packet / notify_listeners into the transport and the remaining listeners never get the datagram",
+                  [str(guard)] if guard is not None else None)
+
+
 def rule_bounds(ctx: Ctx) -> None:
     repo = ctx.repo
     entries = entry_functions(ctx)
@@ -63,7 +260,7 @@ def rule_bounds(ctx: Ctx) -> None:
             raise AnalysisError("bounds region did not converge")
         fi = todo.pop()
         cfg = ctx.cfg(fi)
-        la = LengthAnalysis(repo, fi, cfg, param_min[fi])
+        la = _Lengths(repo, fi, cfg, param_min[fi])
         analysed.add(fi)
         # 1. local sites
         for node, base, need in [*la.index_sites(), *la.unpack_sites()]:
@@ -89,6 +286,8 @@ def rule_bounds(ctx: Ctx) -> None:
                           f"unprotected receive path (via {via[fi]}) without a catch-all handler: a forged cell raises into the transport")
             elif call_name(call) in FOREIGN_CALLS:
                 ctx.instance("bounds-before-index", fi.where, f"foreign call {norm(call.func)} contained by a catch-all handler", line=call.lineno)
+        # 1c. removals by key from a table (raise KeyError / ValueError when the key is absent)
+        _check_removals(ctx, fi, cfg, via[fi])
         # 2. calls out of unprotected statements
         if depth[fi] >= 6:
             continue
@@ -96,6 +295,8 @@ def rule_bounds(ctx: Ctx) -> None:
             if protected(call, fi):
                 continue
             targets = [t for t in repo.resolve_call(fi, call) if not _is_abstract(t)]
+            if not targets:
+                targets = _unique_method(repo, call)
             for t in targets:
                 if t.node is fi.node or t.name in ("__init__",):
                     continue
@@ -148,16 +349,7 @@ def rule_dispatch(ctx: Ctx) -> None:
         ctx.anchor(reads, f"{table}[...] read in {clsname}.{meth}")
         for rd in reads:
             facts = facts_at(cfg, rd)
-            ok = False
-            for f in facts:
-                if f.op == "eq" and f.pos:
-                    sides = [f.left, f.right]
-                    pref = [s for s in sides if chain(s) == "self._prefix"]
-                    sl = [s for s in sides if isinstance(s, ast.Subscript) and isinstance(s.slice, ast.Slice)
-                          and s.slice.lower is None and isinstance(s.slice.upper, ast.Constant) and s.slice.upper.value == 22
-                          and isinstance(s.value, ast.Name)]
-                    if pref and sl and _is_packet_bytes(fi, sl[0].value.id):
-                        ok = True
+            ok = any(_is_prefix_fact(repo, fi, f) for f in facts)
             ctx.check(ok, "prefix-before-dispatch", fi, rd,
                       f"{clsname}.{meth}: handler lookup dominated by self._prefix == data[:22]",
                       "a datagram whose first 22 bytes are not the overlay's prefix can reach the handler table",
@@ -167,8 +359,7 @@ def rule_dispatch(ctx: Ctx) -> None:
         for c in calls(fi):
             f = c.func
             if isinstance(f, ast.Name):
-                d = single_def(fi, f.id)
-                if d is not None and mentions(d[0], table):
+                if any(v is not None and mentions(v, table) for _, v, _ in local_defs(fi, f.id)):
                     hcalls.append(c)
             elif mentions(f, table):
                 hcalls.append(c)
@@ -180,7 +371,8 @@ def rule_dispatch(ctx: Ctx) -> None:
         # coroutine results registered with ignore=(Exception,)
         for c in calls(fi, "self.register_anonymous_task"):
             ig = arg(c, None, "ignore")
-            ok = ig is not None and isinstance(ig, ast.Tuple) and any(chain(e) == "Exception" for e in ig.elts)
+            ig = resolve(fi, ig) if ig is not None else None
+            ok = ig is not None and isinstance(ig, (ast.Tuple, ast.List, ast.Set)) and any(chain(e) == "Exception" for e in ig.elts)
             ctx.check(ok, "handler-contained", fi, c, f"{clsname}.{meth}: coroutine handler registered with ignore=(Exception,)",
                       "exceptions of coroutine handlers are not ignored by the task manager")
     # _prefix is 22 bytes: b"\x00" + version(1) + community_id(20)  (C03 relies on the comparison length)
@@ -188,34 +380,145 @@ def rule_dispatch(ctx: Ctx) -> None:
     st = [s for s, t in _stores(init, "self._prefix")]
     ctx.anchor(st, "self._prefix assignment")
     for s in st:
-        v = s.value
-        parts = []
-        while isinstance(v, ast.BinOp) and isinstance(v.op, ast.Add):
-            parts.insert(0, v.right)
-            v = v.left
-        parts.insert(0, v)
+        parts = _concat_parts(init, s.value)
         ok = len(parts) == 3 and isinstance(parts[0], ast.Constant) and parts[0].value == b"\x00" \
             and chain(parts[1]) == "self.version" and chain(parts[2]) == "self.community_id"
         ctx.check(ok, "prefix-before-dispatch", init, s, "prefix = 0x00 + version + community_id",
                   "the overlay prefix is no longer the 22-byte 0x00|version|community_id")
     # Endpoint.notify_listeners selects by prefix map
     nl = repo.method("Endpoint", "notify_listeners", "ipv8/messaging/interfaces/endpoint.py")
-    gets = [c for c in calls(nl, "self._prefix_map.get")]
-    ctx.anchor(gets, "_prefix_map.get in Endpoint.notify_listeners")
-    for g in gets:
-        k = arg(g, 0)
-        kk = k
-        if isinstance(k, ast.Name):
-            d = single_def(nl, k.id)
-            kk = d[0] if d else k
-        ok = isinstance(kk, ast.Subscript) and isinstance(kk.slice, ast.Slice) and kk.slice.lower is None \
-            and chain(kk.slice.upper) == "self.prefixlen" and norm(kk.value) == f"{nl.params()[1]}[1]"
-        ctx.check(ok, "prefix-before-dispatch", nl, g, "listeners selected by packet[1][:prefixlen]",
+    cfg = ctx.cfg(nl)
+    pkt = nl.params()[1]
+    # every lookup in the prefix map (dict.get with a default, or a subscript guarded by a membership test)
+    lookups: list[tuple[ast.AST, ast.AST, ast.AST | None]] = []       # (node, key, default | None)
+    for n in walk_no_nested(nl.node):
+        if isinstance(n, ast.Call) and isinstance(n.func, ast.Attribute) and n.func.attr == "get" and _is_pmap(nl, n.func.value):
+            lookups.append((n, arg(n, 0), arg(n, 1, "default")))
+        if isinstance(n, ast.Subscript) and isinstance(n.ctx, ast.Load) and _is_pmap(nl, n.value):
+            lookups.append((n, n.slice, None))
+    ctx.anchor(lookups, "_prefix_map.get in Endpoint.notify_listeners")
+    for node, k, default in lookups:
+        ok = k is not None and _is_datagram_prefix(nl, k, pkt)
+        ctx.check(ok, "prefix-before-dispatch", nl, node, "listeners selected by packet[1][:prefixlen]",
                   "endpoint demultiplexing no longer keys on the datagram's first prefixlen bytes")
-        d2 = arg(g, 1)
-        ctx.check(d2 is not None and chain(d2) == "self._listeners", "prefix-before-dispatch", nl, g,
+        if isinstance(node, ast.Call):
+            ok2 = default is not None and chain(resolve(nl, default)) == "self._listeners"
+        else:
+            # map[key] is only evaluated when `key in map` holds, and whatever is delivered to instead is the generic list
+            ok2 = any(f.op == "in" and f.pos and _is_pmap(nl, f.right) and _is_datagram_prefix(nl, f.left, pkt)
+                      for f in facts_at(cfg, node)) and _fallback_is_generic(nl, node)
+        ctx.check(ok2, "prefix-before-dispatch", nl, node,
                   "unknown prefixes fall back to the non-prefix listeners only",
                   "datagrams with an unknown prefix are delivered to something other than the generic listeners")
+
+
+def _is_prefix_fact(repo, fi: FuncInfo, f) -> bool:
+    """Fact `self._prefix == data[:22]` (any spelling / through local aliases) or `data.startswith(self._prefix)`
+    (the same predicate: self._prefix is checked to be 22 bytes long) about the packet bytes of fi."""
+    def is_own_prefix(e):
+        return chain(resolve(fi, e)) == "self._prefix"
+
+    def is_head(e):
+        e = resolve(fi, e)
+        if not (isinstance(e, ast.Subscript) and isinstance(e.slice, ast.Slice) and e.slice.step is None and isinstance(e.value, ast.Name)):
+            return False
+        lo, up = e.slice.lower, e.slice.upper
+        if lo is not None and repo.resolve_const(fi.module, lo, fi.cls) != 0:
+            return False
+        return up is not None and repo.resolve_const(fi.module, up, fi.cls) == 22 and _is_packet_bytes(fi, e.value.id)
+
+    if f.op == "eq" and f.pos and f.right is not None:
+        return (is_own_prefix(f.left) and is_head(f.right)) or (is_own_prefix(f.right) and is_head(f.left))
+    if f.op == "truthy" and f.pos:
+        c = resolve(fi, f.left)
+        if isinstance(c, ast.Call) and isinstance(c.func, ast.Attribute) and c.func.attr == "startswith" and len(c.args) == 1 \
+                and not c.keywords and isinstance(c.func.value, ast.Name) and _is_packet_bytes(fi, c.func.value.id):
+            return is_own_prefix(c.args[0])
+    return False
+
+
+def _is_pmap(fi: FuncInfo, e: ast.AST) -> bool:
+    return chain(resolve(fi, e)) == "self._prefix_map"
+
+
+def _concat_parts(fi: FuncInfo, v: ast.AST) -> list[ast.AST]:
+    v = resolve(fi, v)
+    if isinstance(v, ast.BinOp) and isinstance(v.op, ast.Add):
+        return _concat_parts(fi, v.left) + _concat_parts(fi, v.right)
+    return [v]
+
+
+def _is_packet_data(fi: FuncInfo, e: ast.AST, pkt: str, depth: int = 0) -> bool:
+    """e is element 1 (the bytes) of the (address, data) tuple parameter `pkt`."""
+    e = strip_cast(e)
+    if depth > 4:
+        return False
+    if isinstance(e, ast.Subscript) and not isinstance(e.slice, ast.Slice):
+        return const_value(e.slice) == 1 and isinstance(strip_cast(e.value), ast.Name) and strip_cast(e.value).id == pkt \
+            and not local_defs(fi, pkt)
+    if isinstance(e, ast.Name) and not is_param(fi, e.id):
+        d = single_def(fi, e.id)
+        if d is None:
+            return False
+        if d[1] is None:
+            return _is_packet_data(fi, d[0], pkt, depth + 1)
+        v = strip_cast(d[0])
+        return d[1] == 1 and isinstance(v, ast.Name) and v.id == pkt and not local_defs(fi, pkt)
+    return False
+
+
+def _is_datagram_prefix(fi: FuncInfo, k: ast.AST, pkt: str) -> bool:
+    kk = resolve(fi, k)
+    if not (isinstance(kk, ast.Subscript) and isinstance(kk.slice, ast.Slice) and kk.slice.step is None):
+        return False
+    lo = kk.slice.lower
+    if lo is not None and const_value(lo) != 0:
+        return False
+    return kk.slice.upper is not None and chain(resolve(fi, kk.slice.upper)) == "self.prefixlen" and _is_packet_data(fi, kk.value, pkt)
+
+
+def _fallback_is_generic(fi: FuncInfo, lookup: ast.Subscript) -> bool:
+    """
+    The value `lookup` (= self._prefix_map[key]) flows into - a conditional expression or a local with several
+    definitions - has only prefix-map lookups and the generic listener list as alternatives.
+    """
+    cur: ast.AST = lookup
+    p = parent(cur)
+    while isinstance(p, ast.expr) and not isinstance(p, ast.IfExp):
+        if not (isinstance(p, ast.Call) and chain(p.func) in ("list", "tuple", "cast")):
+            return False
+        cur, p = p, parent(p)
+    alts: list[ast.AST] = []
+    if isinstance(p, ast.IfExp):
+        if cur is p.test:
+            return False
+        alts.append(p.orelse if cur is p.body else p.body)
+        cur, p = p, parent(p)
+    if isinstance(p, (ast.Assign, ast.AnnAssign)) and p.value is cur:
+        tg = p.targets[0] if isinstance(p, ast.Assign) and len(p.targets) == 1 else getattr(p, "target", None)
+        if not isinstance(tg, ast.Name):
+            return False
+        alts.extend(v for st, v, _ in local_defs(fi, tg.id) if st is not p)
+    if isinstance(p, (ast.For, ast.AsyncFor)) and p.iter is cur:
+        # one delivery loop per alternative
+        alts.extend(l.iter for l in walk_no_nested(fi.node) if isinstance(l, (ast.For, ast.AsyncFor)) and l is not p)
+    if not alts:
+        return False                    # a bare lookup with nothing to fall back to: unknown prefixes are dropped or raise
+
+    def leaf_ok(v, depth=0):
+        v = strip_cast(v) if v is not None else None
+        if v is None or depth > 4:
+            return False
+        if isinstance(v, ast.IfExp):
+            return leaf_ok(v.body, depth + 1) and leaf_ok(v.orelse, depth + 1)
+        if isinstance(v, ast.Call) and chain(v.func) in ("list", "tuple") and len(v.args) == 1:
+            return leaf_ok(v.args[0], depth + 1)
+        if isinstance(v, ast.Call) and isinstance(v.func, ast.Attribute) and v.func.attr == "get" and _is_pmap(fi, v.func.value):
+            return True                 # checked as a lookup of its own
+        if isinstance(v, ast.Subscript) and _is_pmap(fi, v.value):
+            return True                 # checked as a lookup of its own
+        return chain(resolve(fi, v)) == "self._listeners"
+    return all(leaf_ok(v) for v in alts)
 
 
 def _stores(fi: FuncInfo, target: str):
@@ -278,36 +581,81 @@ def rule_length_honoured(ctx: Ctx) -> None:
     ctx.floor("length-honoured", n, 4)
 
 
+def _end_bounded_on_every_path(ctx: Ctx, fi: FuncInfo, cfg, sl: ast.Subscript, data: str) -> bool:
+    """
+    Idiom 1, decided on the CFG: on every path from the entry to the slice, some branch condition taken on the way
+    implies  len(data) >= END  where END is exactly the slice's upper bound.  Both are compared as integer linear forms
+    over the initial offset, the wire values and len(data), each evaluated with the variable bindings in force where it
+    stands - so the spelling of the comparison (`end > len(data)`, `len(data) - start < n`, flipped, negated, hoisted
+    into locals) does not matter, while a check of the raw item count before it is scaled to bytes does not count.
+    """
+    from .c02_packers import Lin, PackerModel, UnpackRun, Unknown
+    pm = PackerModel(ctx, fi.cls)
+    site = set(cfg.nodes_for(sl))
+    if not site:
+        return False
+    length = Lin.sym("len(data)")
+    n_paths = 0
+    seen_prefix = set()
+    for path in cfg.paths(limit=3000):
+        idx = next((i for i, (n, _) in enumerate(path) if n in site), None)
+        if idx is None:
+            continue
+        key = tuple((n.id, lab) for n, lab in path[:idx])
+        if key in seen_prefix:
+            continue
+        seen_prefix.add(key)
+        n_paths += 1
+        run = UnpackRun(pm, fi)
+        bounds: list[tuple[Lin, int]] = []                 # D >= k
+        for node, lab in path[:idx]:
+            if node.ast is None:
+                continue
+            if node.kind == "stmt":
+                stored = {n.id for n in ast.walk(node.ast) if isinstance(n, ast.Name) and isinstance(n.ctx, ast.Store)}
+                if data in stored:
+                    bounds.clear()
+                if stored:
+                    bounds = [(d, k) for d, k in bounds if not any(f"w:{nm}" in sym.replace("*", " ").split() or sym.startswith(f"w:{nm}*")
+                                                                    for sym in d.t for nm in stored)]
+                try:
+                    run.stmt(node.ast)
+                except Unknown:
+                    for nm in stored:
+                        run.env.pop(nm, None)
+            elif node.kind == "cond" and lab in (True, False):
+                f = fact_of(node.ast, lab)
+                if f.right is None or f.op not in ("lt", "eq"):
+                    continue
+                try:
+                    l, r = run.lin(f.left), run.lin(f.right)
+                except Unknown:
+                    continue
+                if f.op == "lt":
+                    bounds.append((r - l, 1) if f.pos else (l - r, 0))
+                elif f.pos:
+                    bounds.append((l - r, 0))
+                    bounds.append((r - l, 0))
+        try:
+            target = length - run.lin(sl.slice.upper)
+        except Unknown:
+            return False
+        ok = False
+        for d, k in bounds:
+            c = d - target                                   # target = d - c >= k - c
+            if not c.t and k - c.c >= 0:
+                ok = True
+                break
+        if not ok:
+            return False
+    return n_paths > 0
+
+
 def _length_checked(ctx: Ctx, fi: FuncInfo, cfg, sl: ast.Subscript, data: str, wire: set[str]):
     st = enclosing_stmt(sl)
-    # idiom 1: dominating fact  not (END > len(data))  where END is exactly the slice's upper bound (as a linear form:
-    # a check of the raw item count before it is scaled to bytes does not protect the slice)
-    from .c02_packers import PackerModel, UnpackRun, Unknown
-    run = UnpackRun(PackerModel(ctx, fi.cls), fi)
-    for s_ in sorted((x for x in walk_no_nested(fi.node) if isinstance(x, ast.stmt) and x is not fi.node and x.lineno <= sl.lineno and not isinstance(x, (ast.If, ast.For, ast.While, ast.Try, ast.With))),
-                     key=lambda x: x.lineno):
-        try:
-            run.stmt(s_)
-        except Unknown:
-            pass
-    try:
-        upper = run.lin(sl.slice.upper)
-    except Unknown:
-        upper = None
-    for f in facts_at(cfg, sl):
-        if f.op == "lt" and f.right is not None and upper is not None:
-            # not (len(data) < END)  or  not (END > len(data)) normalised by fact_of to lt(len(data), END) with pos False
-            try:
-                l, r = run.lin(f.left), run.lin(f.right)
-            except Unknown:
-                continue
-            from .c02_packers import Lin
-            if not f.pos and l == Lin.sym("len(data)") and r == upper:
-                return True, "dominating comparison of the slice end with len(data)"
-            if f.pos and r == Lin.sym("len(data)") and (l == upper or l + Lin(1) == upper or l == upper + Lin(-1)):
-                return True, "dominating comparison of the slice end with len(data)"
-            if not f.pos and l == Lin.sym("len(data)") and r != upper:
-                continue
+    # idiom 1: every path to the slice passes a comparison that implies END <= len(data)
+    if _end_bounded_on_every_path(ctx, fi, cfg, sl, data):
+        return True, "dominating comparison of the slice end with len(data)"
     # idiom 2: the slice result's length is compared with the wire length afterwards and a mismatch raises
     tgt = None
     if isinstance(st, ast.Assign) and len(st.targets) == 1 and isinstance(st.targets[0], ast.Name):
@@ -329,12 +677,62 @@ def _length_checked(ctx: Ctx, fi: FuncInfo, cfg, sl: ast.Subscript, data: str, w
     # idiom 3: a later fixed-format unpack_from at exactly the slice's end must succeed on every normal path
     for c in calls(fi, ["unpack_from", "struct.unpack_from"]):
         off = arg(c, 2, "offset")
-        if off is not None and norm(off) == norm(sl.slice.upper) and chain(arg(c, 1)) == data:
+        if off is not None and same_resolved(fi, off, sl.slice.upper) and chain(arg(c, 1)) == data:
             cn = cfg.nodes_for(c)
             sn = cfg.nodes_for(sl)
             if cn and sn and all(cfg.always_followed_by(s, cn) or s in cn for s in sn):
                 return True, "a following unpack_from at the slice end raises on truncation"
     return False, "no check"
+
+
+def _is_pack_error(fi: FuncInfo, exc: ast.AST | None) -> bool:
+    if exc is None:
+        return False
+    e = resolve(fi, exc)
+    return chain(e.func if isinstance(e, ast.Call) else e) == "PackError"
+
+
+def _remainder_nonempty(fi: FuncInfo, f, data: str, offset: str) -> bool:
+    """Fact f says that data[offset:] is not empty (any spelling, through locals)."""
+    def is_rem(e):
+        e = resolve(fi, e)
+        return isinstance(e, ast.Subscript) and isinstance(e.slice, ast.Slice) and e.slice.upper is None and e.slice.step is None \
+            and chain(e.slice.lower) == offset and chain(e.value) == data
+
+    def len_arg(e):
+        e = resolve(fi, e)
+        return e.args[0] if isinstance(e, ast.Call) and chain(e.func) == "len" and len(e.args) == 1 else None
+
+    def is_len_rem(e):
+        a = len_arg(e)
+        return a is not None and is_rem(a)
+
+    if f.op == "truthy":
+        return f.pos and (is_rem(f.left) or is_len_rem(f.left))
+    if f.op == "lt":
+        if f.pos:     # 0 < len(remainder)  |  offset < len(data)
+            if const_value(f.left) == 0 and is_len_rem(f.right):
+                return True
+            a = len_arg(f.right)
+            return chain(f.left) == offset and a is not None and chain(a) == data
+        return is_len_rem(f.left) and const_value(f.right) == 1        # not (len(remainder) < 1)
+    if f.op == "eq" and not f.pos:
+        for x, y in ((f.left, f.right), (f.right, f.left)):
+            if is_len_rem(x) and const_value(y) == 0 and not isinstance(const_value(y), bool):
+                return True
+            if is_rem(x) and isinstance(y, ast.Constant) and isinstance(y.value, bytes) and y.value == b"":
+                return True
+    return False
+
+
+def _flag_set(f, flag: str) -> bool:
+    if f.op == "truthy":
+        return f.pos and chain(f.left) == flag
+    if f.op in ("is", "eq") and f.right is not None:
+        for x, y in ((f.left, f.right), (f.right, f.left)):
+            if chain(x) == flag and isinstance(y, ast.Constant) and isinstance(y.value, bool):
+                return f.pos == y.value
+    return False
 
 
 def rule_consume_all(ctx: Ctx) -> None:
@@ -345,13 +743,9 @@ def rule_consume_all(ctx: Ctx) -> None:
     ok = False
     for r in raises:
         fs = facts_at(cfg, r)
-        has_rem = any(f.op == "truthy" and f.pos and isinstance(f.left, ast.Name)
-                      and (d := single_def(fi, f.left.id)) is not None and isinstance(strip_cast(d[0]), ast.Subscript)
-                      and isinstance(strip_cast(d[0]).slice, ast.Slice) and strip_cast(d[0]).slice.upper is None
-                      and chain(strip_cast(d[0]).slice.lower) == "offset" for f in fs)
-        has_consume = any(f.op == "truthy" and chain(f.left) == "consume_all" and f.pos for f in fs)
-        if has_rem and has_consume and chain(r.exc.func if isinstance(r.exc, ast.Call) else r.exc) in ("PackError",) or \
-                (has_rem and has_consume and isinstance(r.exc, ast.Name)):
+        has_rem = any(_remainder_nonempty(fi, f, "data", "offset") for f in fs)
+        has_consume = any(_flag_set(f, "consume_all") for f in fs)
+        if has_rem and has_consume and _is_pack_error(fi, r.exc):
             ok = True
     ctx.check(ok, "consume-all", fi, fi.node, "unpack_serializable_list raises PackError on a non-empty remainder when consume_all",
               "trailing bytes after the last payload are accepted although consume_all is set")
@@ -360,27 +754,78 @@ def rule_consume_all(ctx: Ctx) -> None:
     ctx.anchor(loop_calls, "unpack_serializable call in unpack_serializable_list")
     for c in loop_calls:
         st = enclosing_stmt(c)
-        ok = isinstance(st, ast.Assign) and isinstance(st.targets[0], ast.Tuple) and len(st.targets[0].elts) == 2 \
-            and chain(st.targets[0].elts[1]) == "offset" and chain(arg(c, 2, "offset")) == "offset" and chain(arg(c, 1, "data")) == "data"
+        ok = chain(arg(c, 2, "offset")) == "offset" and chain(arg(c, 1, "data")) == "data" and _offset_rebound(fi, cfg, c, st)
         ctx.check(ok, "consume-all", fi, st, "offset threaded through every unpack_serializable call",
                   "the end offset returned by unpack_serializable is not the one used for the next payload / remainder")
-    # unpack_serializable: generic packer exceptions converted to PackError
+    # unpack_serializable: generic packer exceptions converted to PackError.  The conversion may live in private helpers
+    # of the Serializer that unpack_serializable calls: the region is unpack_serializable plus every Serializer method
+    # it reaches through `self.<name>(...)`.
     fu = repo.method("Serializer", "unpack_serializable", SER)
-    tries = [n for n in walk_no_nested(fu.node) if isinstance(n, ast.Try)]
+    region, sites = _self_call_region(repo, fu, stop={"unpack_serializable_list"})
+    tries = [(g, n) for g in region for n in walk_no_nested(g.node) if isinstance(n, ast.Try)]
     ctx.anchor(tries, "try in unpack_serializable")
-    for t in tries:
+    for g, t in tries:
         hs = t.handlers
         generic = [h for h in hs if _catches_all(h)]
         ok = bool(generic) and hs[-1] is generic[-1] and any(
-            isinstance(s, ast.Raise) and s.exc is not None and mentions(s.exc, "PackError") or
-            (isinstance(s, ast.Raise) and isinstance(s.exc, ast.Name)) for s in ast.walk(generic[-1]))
-        ctx.check(ok, "consume-all", fu, t, "packer exceptions are converted to PackError by a final generic handler",
+            isinstance(s, ast.Raise) and _is_pack_error(g, s.exc) for s in ast.walk(generic[-1]))
+        ctx.check(ok, "consume-all", g, t, "packer exceptions are converted to PackError by a final generic handler",
                   "a packer exception (struct.error, IndexError, UnicodeDecodeError) escapes unpack_serializable unconverted")
-        # every packer unpack call of the loop is inside this try or in one of its handlers
-    for c in [c for c in calls(fu) if call_name(c) == "unpack"]:
-        inside = any(isinstance(a, ast.Try) for a in _ancestors_until(c, fu.node))
-        ctx.check(inside, "consume-all", fu, c, "packer.unpack invoked under the converting try",
-                  "a packer is invoked outside the try that converts its exceptions")
+
+    def under_try(g: FuncInfo, n: ast.AST, depth: int = 0) -> bool:
+        # inside a try of its own function (body or one of its handlers), or every call of the helper is
+        if any(isinstance(a, ast.Try) for a in _ancestors_until(n, g.node)):
+            return True
+        if g is fu or depth > 3 or not sites.get(g):
+            return False
+        return all(under_try(h, c, depth + 1) for h, c in sites[g])
+
+    for g in region:
+        for c in [c for c in calls(g) if call_name(c) == "unpack" and not (isinstance(c.func, ast.Attribute) and chain(c.func.value) == "self")]:
+            ctx.check(under_try(g, c), "consume-all", g, c, "packer.unpack invoked under the converting try",
+                      "a packer is invoked outside the try that converts its exceptions")
+
+
+def _offset_rebound(fi: FuncInfo, cfg, c: ast.Call, st: ast.AST) -> bool:
+    """The second element of the (payload, offset) result of call c is stored back into `offset`."""
+    if not isinstance(st, ast.Assign) or len(st.targets) != 1 or strip_cast(st.value) is not c:
+        return False
+    tg = st.targets[0]
+    if isinstance(tg, (ast.Tuple, ast.List)):
+        return len(tg.elts) == 2 and chain(tg.elts[1]) == "offset"
+    if isinstance(tg, ast.Name):
+        # res = self.unpack_serializable(...); ...; offset = res[1]   on every path that goes on
+        later = [s for s in walk_no_nested(fi.node) if isinstance(s, ast.Assign) and len(s.targets) == 1 and chain(s.targets[0]) == "offset"
+                 and isinstance(strip_cast(s.value), ast.Subscript) and chain(strip_cast(s.value).value) == tg.id
+                 and const_value(strip_cast(s.value).slice) == 1]
+        ln = [n for s in later for n in cfg.nodes_for(s)]
+        sn = cfg.nodes_for(st)
+        return bool(ln) and bool(sn) and len(local_defs(fi, tg.id)) == 1 and all(cfg.always_followed_by(n, ln) for n in sn)
+    return False
+
+
+def _self_call_region(repo, root: FuncInfo, stop: set[str]):
+    """root plus the methods of root's class (MRO) reached through `self.<name>(...)` calls; call sites per callee."""
+    region = [root]
+    sites: dict[FuncInfo, list[tuple[FuncInfo, ast.Call]]] = {}
+    todo = [root]
+    mro = set(id(k) for k in root.cls.mro()) if root.cls is not None else set()
+    while todo:
+        g = todo.pop()
+        for c in calls(g):
+            f = c.func
+            if not (isinstance(f, ast.Attribute) and isinstance(f.value, ast.Name) and f.value.id == "self"):
+                continue
+            if f.attr in stop or f.attr == root.name:
+                continue
+            for t in repo.resolve_call(g, c):
+                if t.cls is None or id(t.cls) not in mro or t is root:
+                    continue
+                sites.setdefault(t, []).append((g, c))
+                if t not in region and len(region) < 8:
+                    region.append(t)
+                    todo.append(t)
+    return region, sites
 
 
 def _ancestors_until(n, stop):
@@ -394,17 +839,33 @@ def rule_snapshot(ctx: Ctx) -> None:
     repo = ctx.repo
     fi = repo.method("Network", "load_snapshot", "ipv8/peerdiscovery/network.py")
     cfg = ctx.cfg(fi)
-    loops = [n for n in walk_no_nested(fi.node) if isinstance(n, ast.While)]
+    all_loops = [n for n in walk_no_nested(fi.node) if isinstance(n, (ast.While, ast.For))]
+    # the decoding loop: the one that contains the call decoding a snapshot entry
+    loops = [n for n in all_loops if any(call_name(c) == "unpack" and any(chain(a) == fi.params()[1] for a in c.args)
+                                         for c in calls(n))] or [n for n in all_loops if isinstance(n, ast.While)]
     ctx.anchor(loops, "while loop in load_snapshot")
     loop = loops[0]
-    # 1. every raising statement of the loop body is inside try/except Exception
+    # 1. every raising statement of the loop is inside try/except Exception
     from ..cfg import expr_may_raise
-    for st in loop.body:
-        if isinstance(st, ast.Try):
-            continue
-        ctx.check(not expr_may_raise(st), "snapshot-never-raises", fi, st, "loop statement outside the try cannot raise",
-                  "a statement of the snapshot loop that may raise is outside try/except Exception")
-    tries = [s for s in loop.body if isinstance(s, ast.Try)]
+    tries: list[ast.Try] = []
+
+    def scan(stmts) -> None:
+        for st in stmts:
+            if isinstance(st, ast.Try):
+                tries.append(st)
+                continue            # body: contained (checked below); handlers: checked below
+            if isinstance(st, ast.If):
+                ctx.check(not expr_may_raise(st.test), "snapshot-never-raises", fi, st.test, "loop condition outside the try cannot raise",
+                          "a statement of the snapshot loop that may raise is outside try/except Exception")
+                scan(st.body)
+                scan(st.orelse)
+                continue
+            ctx.check(not expr_may_raise(st), "snapshot-never-raises", fi, st, "loop statement outside the try cannot raise",
+                      "a statement of the snapshot loop that may raise is outside try/except Exception")
+    scan(loop.body)
+    if isinstance(loop, ast.While):
+        ctx.check(not expr_may_raise(loop.test), "snapshot-never-raises", fi, loop.test, "loop condition cannot raise",
+                  "the snapshot loop condition may raise outside try/except Exception")
     ctx.anchor(tries, "try in load_snapshot loop")
     for t in tries:
         ok = any(_catches_all(h) for h in t.handlers)
@@ -450,10 +911,23 @@ def rule_snapshot(ctx: Ctx) -> None:
                 cn = chain(c.func) or ""
                 ok_c = cn.startswith(("logger.", "logging.", "self.logger.")) or cn in ("repr", "str")
                 ctx.check(ok_c, "snapshot-never-raises", fi, c, "handler only logs", "the handler calls code that can raise")
-    # previous_offset = offset at the top of each iteration
-    po = [s for s in loop.body if isinstance(s, ast.Assign) and chain(s.targets[0]) == "previous_offset"]
-    ctx.check(bool(po) and chain(po[0].value) == "offset" and loop.body.index(po[0]) < loop.body.index(tries[0]),
-              "snapshot-never-raises", fi, loop, "previous_offset snapshots offset before each entry",
+    # previous_offset = offset, taken on every path into the try body, and offset only moves inside the try body
+    po = [s for s in walk_no_nested(loop) if isinstance(s, ast.Assign) and any(chain(t) == "previous_offset" for t in s.targets)]
+    po_nodes = [n for s in po for n in cfg.nodes_for(s)]
+    first = [n for t in tries if t.body for n in cfg.nodes_for(t.body[0])]
+    ok_po = bool(po) and all(chain(strip_cast(s.value)) == "offset" and len(s.targets) == 1 for s in po) and bool(first) \
+        and all(cfg.must_complete(n, po_nodes) for n in first)
+    # between the snapshot of the offset and the try body nothing moves the offset
+    if ok_po:
+        in_try = {id(n) for t in tries for st in t.body for n in ast.walk(st)}
+        movers = [n for st in walk_no_nested(loop) if isinstance(st, (ast.Assign, ast.AugAssign, ast.AnnAssign)) and id(st) not in in_try
+                  and "offset" in {x.id for x in ast.walk(st) if isinstance(x, ast.Name) and isinstance(x.ctx, ast.Store)}
+                  for n in cfg.nodes_for(st)]
+        for m in movers:
+            r = cfg.reach([v for v, lab in m.succ if lab != "exc"], cut_nodes=po_nodes)
+            if any(n in r for n in first):
+                ok_po = False
+    ctx.check(ok_po, "snapshot-never-raises", fi, loop, "previous_offset snapshots offset before each entry",
               "progress detection is broken: previous_offset is not the offset before the entry")
 
 
@@ -515,6 +989,16 @@ WITNESSES = [
     {"name": "new unguarded index in deliver path", "file": "ipv8/messaging/interfaces/endpoint.py", "rule": "bounds-before-index",
      "old": "        prefix = packet[1][:self.prefixlen]\n        listeners",
      "new": "        prefix = packet[1][:self.prefixlen]\n        data = packet[1]\n        self._logger.debug(\"msg %d\", data[self.prefixlen - 22 + 22] if False else data[22])\n        listeners"},
+    {"name": "cached address popped without default on the receive path", "file": "ipv8/peerdiscovery/network.py", "rule": "removal-guarded",
+     "old": "            peer = self.reverse_ip_lookup.pop(address, None)\n            if peer is not None and (peer not in",
+     "new": "            peer = self.reverse_ip_lookup.pop(address)\n            if peer is not None and (peer not in"},
+    {"name": "stale cache clean-up deletes keys that need not be cached", "file": "ipv8/peerdiscovery/network.py", "rule": "removal-guarded",
+     "old": "                # The cached peer was removed or no longer uses this address.\n                peer = None\n",
+     "new": "                for stale_address in peer.addresses.values():\n                    del self.reverse_ip_lookup[stale_address]\n                peer = None\n"},
+    {"name": "membership test no longer valid at the deletion", "file": "ipv8/peerdiscovery/network.py", "rule": "removal-guarded",
+     "old": "            peer = self.reverse_ip_lookup.pop(address, None)\n            if peer is not None and (peer not in",
+     "new": "            peer = None\n            if address in self.reverse_ip_lookup:\n                peer = self.reverse_ip_lookup.pop(address)\n"
+            "                del self.reverse_ip_lookup[address]\n            if peer is not None and (peer not in"},
     {"name": "prefix check removed", "file": "ipv8/community.py", "rule": "prefix-before-dispatch",
      "old": "if self._prefix != data[:22] or len(data) < 23:", "new": "if len(data) < 23:"},
     {"name": "prefix check on 2 bytes only", "file": "ipv8/community.py", "rule": "prefix-before-dispatch",
